@@ -85,6 +85,8 @@ func newRig(st *stateRec) (*rig, string) {
 			c.Sasl = sasl.NewPlainClient(authz, user, pass)
 		case "EXTERNAL":
 			c.Sasl = sasl.NewExternalClient(extIdentity)
+		case "LOGIN":
+			c.Sasl = sasl.NewLoginClient(user, pass)
 		}
 	})
 	r.disc = make(chan struct{}, 16)
@@ -142,12 +144,16 @@ func render(o *opRec) string {
 		return ":irc.example.net CAP me NAK :" + strings.Join(caps, " ")
 	case "AUTHENTICATE":
 		return "AUTHENTICATE +"
+	case "CHALLENGE":
+		return "AUTHENTICATE " + base64.StdEncoding.EncodeToString([]byte("Password:"))
 	case "903":
 		return ":irc.example.net 903 me :SASL authentication successful"
 	case "904":
 		return ":irc.example.net 904 me :SASL authentication failed"
 	case "908":
 		return ":irc.example.net 908 me PLAIN,EXTERNAL :are available SASL mechanisms"
+	case "CONNECTAGAIN":
+		return "(Connect called while connected: refused)"
 	case "RECONNECT":
 		return "(the connection ends; Connect again)"
 	}
@@ -163,6 +169,8 @@ func payload(mech string) string {
 			return "+"
 		}
 		return base64.StdEncoding.EncodeToString([]byte(extIdentity))
+	case "LOGIN":
+		return base64.StdEncoding.EncodeToString([]byte(user))
 	}
 	return ""
 }
@@ -207,6 +215,14 @@ func (r *rig) apply(e *edge, check bool, universe []string) string {
 		if got, msg = r.reconnect(); msg != "" {
 			return msg
 		}
+	} else if e.O.Ev == "connectagain" {
+		if err := r.s.C.Connect(); err == nil {
+			return "Connect on a connected client was not refused"
+		}
+		if !r.s.Sync(5 * time.Second) {
+			return "the client stopped answering PING after a refused Connect"
+		}
+		got = r.newLines()
 	} else {
 		r.s.Srv.SendLines(render(&e.O))
 		if !r.s.Sync(5 * time.Second) {
@@ -221,6 +237,7 @@ func (r *rig) apply(e *edge, check bool, universe []string) string {
 	// expected output; CAP REQ lines are compared as the union of their capabilities (a long request may be split)
 	var want []string
 	for _, x := range e.O.Expect {
+		x = strings.Replace(x, "<LOGIN2>", base64.StdEncoding.EncodeToString([]byte(pass)), 1)
 		want = append(want, strings.Replace(x, "<"+r.mech+">", payload(r.mech), 1))
 	}
 	var reqCaps, rest []string
